@@ -34,9 +34,15 @@ func C15(c *Ctx) {
 	r.Explanation = "(A7 coverage agreement) per module: every store section written at run time (handlers, ante, begin/end block) is also written by genesis import, and is read by genesis export or is a derived section that import rebuilds under the stated guard (the enterprise raised/accepted queues from the order status); " +
 		"(literal completeness) every keyed struct literal of a module type built on an import/export route names every field of that type, and each imported record field comes from the like-named genesis field; exported in-state counters are recomputed from the exported records (len, first element); " +
 		"(A5) the export caps of both record modules are the constant 20000 and are what the reverse iteration stops at; (A8) import drops no error of a state setter (incl. SetParams); (A2) import asserts escrow balance == holdings for the enterprise and stream accounts; (A5) the four modules are in the init/export genesis order and implement InitGenesis/ExportGenesis. Byte-identical round trip and behavioural equivalence are not decided."
-	r.Rules = []string{"A7.section-coverage", "A7.derived-queues", "A7.literal-completeness", "A7.import-fields", "A7.export-counters", "A7.export-fields", "A5.export-cap", "A8.import-errors", "A2.genesis-balance", "A5.genesis-order", "A12.decode-fresh", "A7.export-complete", "A7.import-accepts-export"}
+	r.Rules = []string{"A7.section-coverage", "A7.derived-queues", "A7.literal-completeness", "A7.import-fields", "A7.export-counters", "A7.export-fields", "A5.export-cap", "A8.import-errors", "A2.genesis-balance", "A5.genesis-order", "A12.decode-fresh", "A7.export-complete", "A7.import-accepts-export", "A3.element-carry", "A11.parser"}
+	for _, m := range ir.Modules {
+		r.Floor("loops of "+m+" on import and export paths judged for locals carried between elements", elementCarry(c, m, []string{"INITGEN", "EXPORTGEN"}), 2)
+	}
+	// the stream export names each stream by the parties parsed back out of its key: the parsers invert the key builder
+	streamParsers(c, streamKeyBuilders(c))
 	decodeFresh(c, ir.Modules...)
 	exportComplete(c, ir.Modules...)
+	exportNotPaginated(c, ir.Modules...)
 	importRejects(c, ir.Modules...)
 	r.Trusted = []string{"module manager runs InitGenesis/ExportGenesis in the configured order", "protobuf JSON round trip of the genesis document"}
 	r.NotDecided = []string{"byte-identical re-export", "behavioural equivalence of the imported chain", "registered invariants holding after import (numeric)"}
@@ -44,9 +50,7 @@ func C15(c *Ctx) {
 	wkinds := map[string]bool{"StoreWrite": true}
 	rkinds := map[string]bool{"StoreRead": true, "StoreIter": true, "StoreHas": true}
 	floors := map[string]int{"enterprise": 10, "wrkchain": 5, "beacon": 5, "stream": 2}
-	derived := map[string]map[string]string{
-		"enterprise": {secRaisedQ: stRaised, secAcceptedQ: stAccepted},
-	}
+	derived := derivedSections
 	for _, m := range ir.Modules {
 		var runtime []*ssa.Function
 		runtime = append(runtime, w.Roots["MSG:"+m]...)
@@ -63,102 +67,7 @@ func C15(c *Ctx) {
 			_, isDerived := derived[m][sec]
 			r.Require(expR[sec] || isDerived, "A7.section-coverage", "export|"+sec, "", "a section written at run time is read by genesis export (or is rebuilt from exported data)", "export never reads "+sec)
 		}
-		// derived queues: written in import under the matching status guard
-		for sec, status := range derived[m] {
-			n := 0
-			for _, root := range w.Roots["INITGEN:"+m] {
-				for f := range w.Reachable([]*ssa.Function{root}) {
-					if !genesisFuncs(c, "INITGEN", m)[f] {
-						continue
-					}
-					is := callReaching(c, f, func(e ir.Effect) bool { return e.Kind == "StoreWrite" && e.Section == sec })
-					for _, s := range findInstrs(f, is) {
-						if callReaching(c, f, func(e ir.Effect) bool { return e.Kind == "StoreWrite" && e.Section == secPO })(s) {
-							continue // a call that runs the whole import, not the queue step itself
-						}
-						n++
-						var idArg *ir.Expr
-						if call, ok := s.(ssa.CallInstruction); ok {
-							a := call.Common().Args
-							idArg = w.ExprOf(a[len(a)-1])
-							// (the order may come out of a list prepared beforehand: resolved to the imported element)
-							if x := w.Expand(idArg, 4); x.Op == "field" && x.Name == "Id" {
-								idArg = x
-							}
-						}
-						g := w.Guarded(f, s, func(p ir.Pred) bool {
-							return cmpIs(p, "==", func(x *ir.Expr) bool {
-								return x.Op == "field" && x.Name == "Status" && idArg != nil && idArg.Op == "field" && idArg.Name == "Id" && x.Args[0].String() == idArg.Args[0].String()
-							}, func(y *ir.Expr) bool { return y.Op == "const" && y.Name == status })
-						}, 1)
-						r.Require(g, "A7.derived-queues", sec, pos(c, s), "import re-creates the queue entry exactly for imported orders with Status == "+status+" (same order's Id)", "not guarded by that status comparison")
-					}
-				}
-			}
-			r.Require(n >= 1, "A7.derived-queues", "rebuilt|"+sec, "", "genesis import rebuilds the "+sec+" queue", "no write on the import route")
-			// converse: every imported order with that status gets its queue entry before the next iteration
-			for _, root := range w.Roots["INITGEN:"+m] {
-				for f := range w.Reachable([]*ssa.Function{root}) {
-					if !genesisFuncs(c, "INITGEN", m)[f] || ir.ModuleOf(f) != m {
-						continue
-					}
-					isQ := callReaching(c, f, func(e ir.Effect) bool { return e.Kind == "StoreWrite" && e.Section == sec })
-					isPO := callReaching(c, f, func(e ir.Effect) bool { return e.Kind == "StoreWrite" && e.Section == secPO })
-					for _, pw := range findInstrs(f, isPO) {
-						if isQ(pw) {
-							continue
-						}
-						call, ok := pw.(ssa.CallInstruction)
-						if !ok {
-							continue
-						}
-						args := call.Common().Args
-						stored := w.ExprOf(args[len(args)-1])
-						storedX := w.Expand(stored, 4)
-						isStatusOfStored := func(x *ir.Expr) bool {
-							if x.Op != "field" || x.Name != "Status" {
-								return false
-							}
-							if x.Args[0].String() == stored.String() || stored.Op == "struct" || x.Args[0].String() == storedX.String() {
-								return true
-							}
-							// the stored order is a copy, field by field, of the imported element whose status is tested
-							if os.Getenv("MCDEBUG") == "dq" {
-								fmt.Fprintln(os.Stderr, "dq x=", x.String(), " storedX=", storedX.String()[:min(300, len(storedX.String()))])
-							}
-							if storedX.Op == "struct" {
-								if st := fieldOfStruct(storedX, "Status"); st != nil && st.String() == x.String() {
-									return true
-								}
-							}
-							return false
-						}
-						otherStatus := w.EstablishedEdges(f, func(p ir.Pred) bool {
-							// the status differs from the queue's status: tested as != status, or as == a different status constant (switch form)
-							return cmpIs(p, "!=", isStatusOfStored, func(y *ir.Expr) bool { return y.Op == "const" && y.Name == status }) ||
-								cmpIs(p, "==", isStatusOfStored, func(y *ir.Expr) bool {
-									return y.Op == "const" && y.Name != status && strings.Contains(y.Name, "types.Status")
-								})
-						}, 1)
-						bad := ir.AfterReachesBackEdgeWithoutCut(f, pw, isQ, otherStatus)
-						if ir.EnclosingLoopHeader(f, pw) == nil {
-							// the per-order step is a helper of its own (the loop stands in its caller): no successful return of the
-							// helper is reached for such an order without the queue write
-							rets := ir.Returns(f)
-							if sr := w.SuccessReturns(f); len(sr) > 0 && ir.ErrIndex(f) >= 0 {
-								rets = sr
-							}
-							for _, ret := range rets {
-								if ir.ReachesFrom(f, pw.Block(), ir.InstrIndex(pw)+1, ret, ir.Cut{Edges: otherStatus, Barrier: isQ}) {
-									bad = append(bad, ret.Block())
-								}
-							}
-						}
-						r.Require(len(bad) == 0, "A7.derived-queues", "every|"+sec, pos(c, pw), "every imported order with Status == "+status+" gets its queue entry (no imported order of that status is skipped)", "the next iteration is reachable for such an order without the queue write")
-					}
-				}
-			}
-		}
+		derivedQueues(c, m)
 		literalCompleteness(c, m)
 		importFields(c, m)
 		importErrors(c, m)
@@ -453,7 +362,31 @@ func exportCaps(c *Ctx) {
 				}
 			}
 		}
-		used = hasReverse && cmpWithCap
+		// the same list cut out of a complete ascending walk: list[len(list)-cap:]
+		trims := false
+		for f := range reach {
+			if ir.ModuleOf(f) != m || w.IsGenerated(f) {
+				continue
+			}
+			for _, b := range f.Blocks {
+				for _, in := range b.Instrs {
+					sl, ok := in.(*ssa.Slice)
+					if !ok || sl.High != nil || sl.Low == nil {
+						continue
+					}
+					bo, ok := sl.Low.(*ssa.BinOp)
+					if !ok || bo.Op != token.SUB || !isCap(stripConvV(bo.Y)) {
+						continue
+					}
+					if lc, ok := stripConvV(bo.X).(*ssa.Call); ok {
+						if bi, ok := lc.Common().Value.(*ssa.Builtin); ok && bi.Name() == "len" && len(lc.Common().Args) == 1 && w.ExprOf(lc.Common().Args[0]).String() == w.ExprOf(sl.X).String() {
+							trims = true
+						}
+					}
+				}
+			}
+		}
+		used = hasReverse && cmpWithCap || trims
 		r.Require(used, "A5.export-cap", m+"|use", "", "export walks the records newest-first and stops after exactly the cap", "no reverse iteration stopping at count == 20000 on the export route")
 	}
 }
@@ -465,6 +398,11 @@ func exportCounters(c *Ctx) { exportCountersRule(c, "", nil) }
 // restricted to those fields and reports under `rule` (used by C07 for the cursor field).
 func exportCountersRule(c *Ctx, rule string, only map[string]bool) {
 	w, r := c.W, c.R
+	nEmpty := 0
+	defer func() {
+		// (no floor: a marker computed by a helper, or stored with the whole registration, has no choice at the store to judge)
+		r.Analysed["exported_first_record_markers_zero_case_judged"] += nEmpty
+	}()
 	for _, rm := range recMods {
 		n := 0
 		for _, root := range w.Roots["EXPORTGEN:"+rm.M] {
@@ -559,6 +497,15 @@ func exportCountersRule(c *Ctx, rule string, only map[string]bool) {
 						if strings.HasSuffix(ptrElem(fa.X.Type()).String(), regT) {
 							// a field of a registration
 							checkField(fname, w.ExprOf(st.Val), in)
+							if fname == rm.Lowest && (only == nil || only[fname]) {
+								// ... and it is 0 only when nothing is exported: the choice between 0 and the first record's key is made by a
+								// test that separates the empty list from every other length
+								if judged, exact, detail := zeroOnlyWhenEmpty(st.Val); judged {
+									nEmpty++
+									r.Require(exact, ruleOr(rule, "A7.export-counters"), rm.M+"."+rm.Lowest+"|empty-only", pos(c, in),
+										"exported "+rm.Lowest+" is 0 only when no record is exported (import reads 0 as \"nothing recorded yet\")", detail)
+								}
+							}
 							continue
 						}
 						if strings.HasSuffix(st.Val.Type().String(), regT) {
@@ -1043,6 +990,236 @@ func stripConvV(v ssa.Value) ssa.Value {
 			v = x.X
 		default:
 			return v
+		}
+	}
+}
+
+func ruleOr(rule, dflt string) string {
+	if rule != "" {
+		return rule
+	}
+	return dflt
+}
+
+// zeroOnlyWhenEmpty: val is a choice (phi) between the constant 0 and other values; every edge that brings the 0 is taken
+// exactly when a length is 0 — the branch it hangs on compares len(x) with a constant such that the side taken holds for
+// length 0 and for no other length. judged is false when val is not such a choice or the deciding test is not a length
+// comparison.
+func zeroOnlyWhenEmpty(val ssa.Value) (judged, exact bool, detail string) {
+	for {
+		if cv, ok := val.(*ssa.Convert); ok {
+			val = cv.X
+			continue
+		}
+		break
+	}
+	phi, ok := val.(*ssa.Phi)
+	if !ok {
+		return false, false, ""
+	}
+	exact = true
+	for i, e := range phi.Edges {
+		cst, ok := e.(*ssa.Const)
+		if !ok || cst.Value == nil || cst.Value.String() != "0" {
+			continue
+		}
+		// the branch the 0 edge hangs on
+		succ := phi.Block()
+		p := succ.Preds[i]
+		for len(p.Succs) == 1 && len(p.Preds) == 1 {
+			succ, p = p, p.Preds[0]
+		}
+		if len(p.Instrs) == 0 {
+			continue
+		}
+		iff, ok := p.Instrs[len(p.Instrs)-1].(*ssa.If)
+		if !ok || len(p.Succs) != 2 {
+			continue
+		}
+		side := -1
+		for k, sc := range p.Succs {
+			if sc == succ {
+				side = k
+			}
+		}
+		bo, ok := iff.Cond.(*ssa.BinOp)
+		if !ok || side < 0 {
+			continue
+		}
+		isLen := func(v ssa.Value) bool {
+			for {
+				if cv, ok := v.(*ssa.Convert); ok {
+					v = cv.X
+					continue
+				}
+				break
+			}
+			call, ok := v.(*ssa.Call)
+			if !ok {
+				return false
+			}
+			b, ok := call.Call.Value.(*ssa.Builtin)
+			return ok && b.Name() == "len"
+		}
+		var k int64
+		lenLeft := true
+		switch {
+		case isLen(bo.X):
+			kc, ok := bo.Y.(*ssa.Const)
+			if !ok || kc.Value == nil {
+				continue
+			}
+			k = kc.Int64()
+		case isLen(bo.Y):
+			kc, ok := bo.X.(*ssa.Const)
+			if !ok || kc.Value == nil {
+				continue
+			}
+			k, lenLeft = kc.Int64(), false
+		default:
+			continue
+		}
+		holds := func(n int64) bool {
+			a, b := n, k
+			if !lenLeft {
+				a, b = k, n
+			}
+			var res bool
+			switch bo.Op {
+			case token.EQL:
+				res = a == b
+			case token.NEQ:
+				res = a != b
+			case token.LSS:
+				res = a < b
+			case token.LEQ:
+				res = a <= b
+			case token.GTR:
+				res = a > b
+			case token.GEQ:
+				res = a >= b
+			default:
+				return false
+			}
+			if side == 1 {
+				res = !res
+			}
+			return res
+		}
+		judged = true
+		if !(holds(0) && !holds(1) && !holds(2) && !holds(3)) {
+			exact = false
+			detail = "the 0 is taken on the " + map[int]string{0: "true", 1: "false"}[side] + " side of a length test that also holds for a non-empty list (" + bo.String() + ")"
+		}
+	}
+	return judged, exact, detail
+}
+
+// derivedSections: store sections that genesis export does not carry and genesis import rebuilds from exported data
+// (module -> section -> the order status whose orders it lists).
+var derivedSections = map[string]map[string]string{
+	"enterprise": {secRaisedQ: stRaised, secAcceptedQ: stAccepted},
+}
+
+// derivedQueues (A7.derived-queues): genesis import of module m rebuilds each derived queue — an entry exactly for the
+// imported orders of the matching status, and for every one of them.
+func derivedQueues(c *Ctx, m string) {
+	w, r := c.W, c.R
+	derived := derivedSections
+	// derived queues: written in import under the matching status guard
+	for sec, status := range derived[m] {
+		n := 0
+		for _, root := range w.Roots["INITGEN:"+m] {
+			for f := range w.Reachable([]*ssa.Function{root}) {
+				if !genesisFuncs(c, "INITGEN", m)[f] {
+					continue
+				}
+				is := callReaching(c, f, func(e ir.Effect) bool { return e.Kind == "StoreWrite" && e.Section == sec })
+				for _, s := range findInstrs(f, is) {
+					if callReaching(c, f, func(e ir.Effect) bool { return e.Kind == "StoreWrite" && e.Section == secPO })(s) {
+						continue // a call that runs the whole import, not the queue step itself
+					}
+					n++
+					var idArg *ir.Expr
+					if call, ok := s.(ssa.CallInstruction); ok {
+						a := call.Common().Args
+						idArg = w.ExprOf(a[len(a)-1])
+						// (the order may come out of a list prepared beforehand: resolved to the imported element)
+						if x := w.Expand(idArg, 4); x.Op == "field" && x.Name == "Id" {
+							idArg = x
+						}
+					}
+					g := w.Guarded(f, s, func(p ir.Pred) bool {
+						return cmpIs(p, "==", func(x *ir.Expr) bool {
+							return x.Op == "field" && x.Name == "Status" && idArg != nil && idArg.Op == "field" && idArg.Name == "Id" && x.Args[0].String() == idArg.Args[0].String()
+						}, func(y *ir.Expr) bool { return y.Op == "const" && y.Name == status })
+					}, 1)
+					r.Require(g, "A7.derived-queues", sec, pos(c, s), "import re-creates the queue entry exactly for imported orders with Status == "+status+" (same order's Id)", "not guarded by that status comparison")
+				}
+			}
+		}
+		r.Require(n >= 1, "A7.derived-queues", "rebuilt|"+sec, "", "genesis import rebuilds the "+sec+" queue", "no write on the import route")
+		// converse: every imported order with that status gets its queue entry before the next iteration
+		for _, root := range w.Roots["INITGEN:"+m] {
+			for f := range w.Reachable([]*ssa.Function{root}) {
+				if !genesisFuncs(c, "INITGEN", m)[f] || ir.ModuleOf(f) != m {
+					continue
+				}
+				isQ := callReaching(c, f, func(e ir.Effect) bool { return e.Kind == "StoreWrite" && e.Section == sec })
+				isPO := callReaching(c, f, func(e ir.Effect) bool { return e.Kind == "StoreWrite" && e.Section == secPO })
+				for _, pw := range findInstrs(f, isPO) {
+					if isQ(pw) {
+						continue
+					}
+					call, ok := pw.(ssa.CallInstruction)
+					if !ok {
+						continue
+					}
+					args := call.Common().Args
+					stored := w.ExprOf(args[len(args)-1])
+					storedX := w.Expand(stored, 4)
+					isStatusOfStored := func(x *ir.Expr) bool {
+						if x.Op != "field" || x.Name != "Status" {
+							return false
+						}
+						if x.Args[0].String() == stored.String() || stored.Op == "struct" || x.Args[0].String() == storedX.String() {
+							return true
+						}
+						// the stored order is a copy, field by field, of the imported element whose status is tested
+						if os.Getenv("MCDEBUG") == "dq" {
+							fmt.Fprintln(os.Stderr, "dq x=", x.String(), " storedX=", storedX.String()[:min(300, len(storedX.String()))])
+						}
+						if storedX.Op == "struct" {
+							if st := fieldOfStruct(storedX, "Status"); st != nil && st.String() == x.String() {
+								return true
+							}
+						}
+						return false
+					}
+					otherStatus := w.EstablishedEdges(f, func(p ir.Pred) bool {
+						// the status differs from the queue's status: tested as != status, or as == a different status constant (switch form)
+						return cmpIs(p, "!=", isStatusOfStored, func(y *ir.Expr) bool { return y.Op == "const" && y.Name == status }) ||
+							cmpIs(p, "==", isStatusOfStored, func(y *ir.Expr) bool {
+								return y.Op == "const" && y.Name != status && strings.Contains(y.Name, "types.Status")
+							})
+					}, 1)
+					bad := ir.AfterReachesBackEdgeWithoutCut(f, pw, isQ, otherStatus)
+					if ir.EnclosingLoopHeader(f, pw) == nil {
+						// the per-order step is a helper of its own (the loop stands in its caller): no successful return of the
+						// helper is reached for such an order without the queue write
+						rets := ir.Returns(f)
+						if sr := w.SuccessReturns(f); len(sr) > 0 && ir.ErrIndex(f) >= 0 {
+							rets = sr
+						}
+						for _, ret := range rets {
+							if ir.ReachesFrom(f, pw.Block(), ir.InstrIndex(pw)+1, ret, ir.Cut{Edges: otherStatus, Barrier: isQ}) {
+								bad = append(bad, ret.Block())
+							}
+						}
+					}
+					r.Require(len(bad) == 0, "A7.derived-queues", "every|"+sec, pos(c, pw), "every imported order with Status == "+status+" gets its queue entry (no imported order of that status is skipped)", "the next iteration is reachable for such an order without the queue write")
+				}
+			}
 		}
 	}
 }
